@@ -1188,6 +1188,28 @@ def rule_compress(repo):
                 "net i: values are printed under another net's symbol", val):
         return _fin(r)
     v.nets, v.syms = nets, syms
+    # order of initialisation: the polled table is computed only after the net / symbol tables are complete, i.e. after every
+    # statement of make_vcd_func that appends to them -- directly or through a local function it calls (the header recursion
+    # appends the one-signal nets of signals that belong to no value net)
+    def appends_tables(node, seen=()):
+        for n in ast.walk(node):
+            if _is_call(n, attr='append') and isinstance(n.func.value, ast.Name) and n.func.value.id in (nets, syms):
+                return True
+            if isinstance(n, ast.Call) and isinstance(n.func, ast.Name) and n.func.id not in seen:
+                d_ = _local_def(n.func.id, n)
+                if d_ is not None and d_ is not node and appends_tables(d_, tuple(seen) + (n.func.id,)):
+                    return True
+        return False
+    site = val
+    while site is not None and not any(site is s_ for s_ in v.mk.body):
+        site = parent(site)
+    if site is not None:
+        k_site = [i_ for i_, s_ in enumerate(v.mk.body) if s_ is site][0]
+        late = [s_ for s_ in v.mk.body[k_site + 1:] if not isinstance(s_, (ast.FunctionDef, ast.ClassDef)) and appends_tables(s_)]
+        _chk(r, not late, m, v.q, f"{table} is computed after the last statement that extends {nets} / {syms}",
+             f"`{norm(late[0])[:60]}` runs AFTER {table} was computed and appends further nets to {nets} / {syms} (the header recursion adds a "
+             f"one-signal net for every signal that is in no value net): those nets are declared with $var and get an initial value but are "
+             f"never polled, their signals stay at the default in the waveform while the simulator value changes" if late else '', site)
     _chk(r, v.table_gap is None, m, v.q, f"{table} runs over every index of {nets}",
          f"the per-cycle table does not run over all of {nets} ({v.table_gap}): a net that is declared with $var and given an initial value "
          f"is never polled, its signals keep the initial value in the waveform forever", val)
@@ -1339,7 +1361,7 @@ def rule_compress(repo):
 
 
 def _fin(r):
-    r.require_floor({'R-C16-compress': 17, 'R-C16-header': 33, 'R-C16-textwave': 13}.get(r.rule, 1) if not r.findings else 0)
+    r.require_floor({'R-C16-compress': 18, 'R-C16-header': 33, 'R-C16-textwave': 13}.get(r.rule, 1) if not r.findings else 0)
     return r
 
 
@@ -3097,6 +3119,9 @@ MUTANTS = [
     _m2('clock-slot-left-at-placeholder', 'R-C16-compress',
         (VCD, "      for i, (signal, symbol) in enumerate( net_details ):\n", '      for i, (net, symbol) in enumerate( zip( trimmed_value_nets, net_symbol_mapping ) ):\n        signal = net[0]\n'),
         (VCD, "    for i, net in enumerate(trimmed_value_nets):\n", "    for i, net in enumerate(trimmed_value_nets):\n      if i == vcd_clock_net_idx: continue\n")),
+    _m2('polled-table-built-before-late-nets', 'R-C16-compress',
+        (VCD, '    net_details = [ ( trimmed_value_nets[i][0], net_symbol_mapping[i] )\n                    for i in range(len(trimmed_value_nets))\n                      if i != vcd_clock_net_idx ]\n\n    # Flip clock for the first cycle', '    # Flip clock for the first cycle'),
+        (VCD, '    # Inner utility function to perform recursive descent of the model.\n', '    net_details = [ ( trimmed_value_nets[i][0], net_symbol_mapping[i] )\n                    for i in range(len(trimmed_value_nets))\n                      if i != vcd_clock_net_idx ]\n\n    # Inner utility function to perform recursive descent of the model.\n')),
     _m('var-name-keeps-dot', VCD, "repr(signal)[ len(m_name)+1: ]", "repr(signal)[ len(m_name): ]", 'R-C16-header'),
     _m('no-upscope', VCD, '      print( f"{spaces}$upscope $end", file=vcd_file )\n', "", 'R-C16-header'),
     _m('clock-index-off-by-one', VCD, "vcd_clock_net_idx = len(trimmed_value_nets)\n\n      if new_net:",
@@ -3238,6 +3263,7 @@ EQUIV = [
        "    top._dsl.all_named_objects |= added_components\n    top._dsl.all_named_objects |= added_signals\n    top._dsl.all_named_objects |= added_method_ports\n",
        "    top._dsl.all_named_objects |= added_components | added_signals | added_method_ports\n"),
     _m('signal-registrations-by-update', COMPONENT, "    top._dsl.all_signals       |= added_signals\n", "    top._dsl.all_signals.update( added_signals )\n"),
+    _m('polled-table-before-clock-symbol', VCD, '    clock_symbol = net_symbol_mapping[ vcd_clock_net_idx ]\n\n    net_details = [ ( trimmed_value_nets[i][0], net_symbol_mapping[i] )\n                    for i in range(len(trimmed_value_nets))\n                      if i != vcd_clock_net_idx ]\n', '    net_details = [ ( trimmed_value_nets[i][0], net_symbol_mapping[i] )\n                    for i in range(len(trimmed_value_nets))\n                      if i != vcd_clock_net_idx ]\n\n    clock_symbol = net_symbol_mapping[ vcd_clock_net_idx ]\n'),
     _m('dump-guard-flipped', PREP, "    if top.has_metadata( VcdGenerationPass.vcd_func ):\n      ret.append( top.get_metadata( VcdGenerationPass.vcd_func ) )\n",
        "    if not top.has_metadata( VcdGenerationPass.vcd_func ):\n      pass\n    else:\n      ret.append( top.get_metadata( VcdGenerationPass.vcd_func ) )\n"),
     _m('vcd-str-conditional-expression', BITS,
